@@ -192,6 +192,10 @@ class BaseGradientApproximator(metaclass=ABCGoogleDocstringInheritanceMeta):
         if not x_indices:
             x_indices = range(n_dim)
 
+        if x_vect.dtype.kind in "iub":
+            # The perturbations are real numbers (e.g. current value of an integer design space).
+            x_vect = x_vect.astype(float64)
+
         return self._generate_perturbations(x_vect, x_indices, step)
 
     @abstractmethod
